@@ -99,7 +99,7 @@ fn program(src: &str) -> Arc<Program> {
     if let Some(p) = cache.lock().unwrap().get(src) {
         return p.clone();
     }
-    let p = Arc::new(assembler().compile(src).unwrap_or_else(|e| panic!("harness program must assemble: {e}\n{src}")));
+    let p = Arc::new(assembler().compile(src).unwrap_or_else(|e| panic!("SUBJECT: harness program must assemble: {e}\n{src}")));
     cache.lock().unwrap().insert(src.to_string(), p.clone());
     p
 }
@@ -1464,11 +1464,11 @@ fn self_check() {
     let prog = program(&format!("{LOADER} begin exec.load_words end"));
     let mut stack = vec![2, 300];
     stack.extend(sentinels(16));
-    let o = exec(&prog, &stack, AdviceInputs::default().with_stack(felts(&[1, 2, 3, 4, 5, 6, 7, 8]))).expect("loader must not panic");
-    assert_eq!(o.stack.as_ref().expect("loader must run"), &sentinels(16), "loader must leave the stack clean");
+    let o = exec(&prog, &stack, AdviceInputs::default().with_stack(felts(&[1, 2, 3, 4, 5, 6, 7, 8]))).expect("SUBJECT: loader must not panic");
+    assert_eq!(o.stack.as_ref().expect("SUBJECT: loader must run"), &sentinels(16), "loader must leave the stack clean");
     let exp: Mem = [(300, [1, 2, 3, 4]), (301, [5, 6, 7, 8])].into_iter().collect();
     assert!(mem_mismatch(&exp, &o.mem).is_none(), "loader must write the words in advice order: {:?}", o.mem);
-    let o2 = exec(&prog, &stack, AdviceInputs::default().with_stack(felts(&[1, 2, 3, 4, 5, 6, 7, 8]))).expect("loader must not panic");
+    let o2 = exec(&prog, &stack, AdviceInputs::default().with_stack(felts(&[1, 2, 3, 4, 5, 6, 7, 8]))).expect("SUBJECT: loader must not panic");
     assert!(o.stack == o2.stack && o.mem == o2.mem, "two runs of the same case must give the same observation");
     let mut v = vec![];
     push_w(&mut v, [1, 2, 3, 4]);
